@@ -66,6 +66,29 @@ func (rn *runner) do(cfg config, seq []op, tie *lib.Tie, class string) {
 	}
 }
 
+// doConfig: a configuration whose construction must panic (or not) - model vs code, on the construction alone.
+func (rn *runner) doConfig(cfg config, tie *lib.Tie) {
+	code := "ok"
+	if p, _ := lib.Catch(func() { newWorldCfg(cfg) }); p {
+		code = "panic"
+	}
+	tie.Count("construction:" + code)
+	if rn.drv == nil {
+		return
+	}
+	rn.flush()
+	ans, err := rn.drv.Batch([]string{cfg.line()})
+	if err != nil {
+		tie.Fail(err)
+		return
+	}
+	model := ans[0]
+	if j := indexByte(model, ' '); j > 0 {
+		model = model[:j]
+	}
+	tie.Record("construct "+cfg.line(), true, map[string]any{"init": cfg}, model, code)
+}
+
 func (rn *runner) flush() {
 	if rn.drv == nil || len(rn.lines) == 0 {
 		return
@@ -129,6 +152,11 @@ func baseAlphabet(a func(id string, normal bool) *mode) []op {
 		{Kind: "clear"},
 		{Kind: "s.clear"},
 		{Kind: "setactive", Mode: &mode{ID: "b", Title: "set", Start: 5}},
+		// Model-level write options: UpdateMode as an upsert (with and without a mask that leaves the id out),
+		// value preconditions on update and delete
+		{Kind: "update", Mode: a("c", true), CreateIfAbsent: true},
+		{Kind: "update", Mode: &mode{ID: "b", Title: "up", Normal: true}, HasMask: true, Mask: []string{"title"}, CreateIfAbsent: true},
+		{Kind: "delete", ID: "b", Expected: a("b", false)},
 	}
 }
 
@@ -207,6 +235,36 @@ func genMask(r *rand.Rand, o *op) {
 	}
 }
 
+// genExpected draws the argument of WithExpectedValue: the blank message, the plain mode the generators
+// store under that id most often, or a random mode.
+func genExpected(r *rand.Rand, id string) *mode {
+	switch r.Intn(4) {
+	case 0:
+		return &mode{}
+	case 1:
+		return &mode{ID: id, Title: titles[r.Intn(len(titles))]}
+	case 2:
+		return &mode{ID: id, Title: titles[r.Intn(len(titles))], Normal: true}
+	}
+	return genMode(r, id)
+}
+
+// genWriteOpts adds Model-level write options to an UpdateMode: upsert, expect-absent, expected value.
+func genWriteOpts(r *rand.Rand, o *op) {
+	if r.Intn(5) < 3 {
+		return
+	}
+	if r.Intn(3) != 0 {
+		o.CreateIfAbsent = true
+	}
+	if r.Intn(5) == 0 {
+		o.ExpectAbsent = true
+	}
+	if r.Intn(4) == 0 {
+		o.Expected = genExpected(r, o.Mode.ID)
+	}
+}
+
 func genOp(r *rand.Rand, step int) op {
 	id := idPool[r.Intn(len(idPool))]
 	if r.Intn(3) == 0 {
@@ -235,6 +293,7 @@ func genOp(r *rand.Rand, step int) op {
 	case 6, 7, 8:
 		o := op{Kind: "update", Mode: genMode(r, id), Now: now}
 		genMask(r, &o)
+		genWriteOpts(r, &o)
 		return o
 	case 9, 10:
 		o := op{Kind: "s.update", Mode: genMode(r, id), Now: now}
@@ -244,7 +303,11 @@ func genOp(r *rand.Rand, step int) op {
 		genMask(r, &o)
 		return o
 	case 11, 12:
-		return op{Kind: "delete", ID: id, AllowMissing: r.Intn(2) == 0, Now: now}
+		o := op{Kind: "delete", ID: id, AllowMissing: r.Intn(2) == 0, Now: now}
+		if r.Intn(4) == 0 {
+			o.Expected = genExpected(r, id)
+		}
+		return o
 	case 13, 14:
 		o := op{Kind: "s.delete", ID: id, AllowMissing: r.Intn(2) == 0, Now: now}
 		if r.Intn(10) == 0 {
@@ -309,6 +372,14 @@ func genConfig(r *rand.Rand) config {
 		p := genMode(r, []string{"", "boot", "a", "b", "c"}[r.Intn(5)])
 		cfg.Active = p
 	}
+	// now and then a configuration the options reject: an id configured twice, a mode without id
+	if n > 0 && r.Intn(10) == 0 {
+		if r.Intn(2) == 0 {
+			cfg.Modes = append(cfg.Modes, mode{ID: cfg.Modes[r.Intn(n)].ID, Title: "dup"})
+		} else {
+			cfg.Modes[r.Intn(n)].ID = ""
+		}
+	}
 	return cfg
 }
 
@@ -344,8 +415,10 @@ func genContended(r *rand.Rand) op {
 		return op{Kind: "add", Mode: &mode{ID: id, Normal: true}}
 	case 3:
 		return op{Kind: "s.create", Mode: &mode{Normal: true}}
-	case 4, 5:
+	case 4:
 		return op{Kind: "update", Mode: &mode{ID: id, Normal: true}}
+	case 5:
+		return op{Kind: "update", Mode: &mode{ID: id, Normal: true}, CreateIfAbsent: true}
 	case 6:
 		return op{Kind: "add", Mode: &mode{ID: id}}
 	case 7:
@@ -601,6 +674,13 @@ func main() {
 		rn.exhaustive(cfg, ex, 1)
 		rn.exhaustive(cfg, ex, 2)
 	}
+	// initial-record options: what the construction rejects (panic) and accepts
+	for _, cfg := range append(configuredStates(),
+		config{Modes: []mode{{ID: "a", Title: "ta"}, {ID: "b", Title: "tb"}, {ID: "a", Title: "again"}}},
+		config{Modes: []mode{{ID: "a", Title: "ta"}, {ID: "", Title: "no id"}}},
+		config{Modes: []mode{{ID: "", Title: "no id"}}, Active: &mode{ID: "a"}}) {
+		rn.doConfig(cfg, ex)
+	}
 	if exLen >= 3 {
 		rn.exhaustive(config{}, ex, 3)
 	}
@@ -618,6 +698,10 @@ func main() {
 			n = 1 + r.Intn(40)
 		}
 		cfg := genConfig(r)
+		if cfg.invalid() {
+			rn.doConfig(cfg, tie)
+			continue
+		}
 		seq := make([]op, n)
 		for j := range seq {
 			seq[j] = genOpCfg(r, j, cfg)
